@@ -44,3 +44,17 @@ func TestProbeClassify(t *testing.T) {
 		fmt.Printf("%q -> %q kind=%s min=%q class=%s\n", a, b, k, minimizeRegex(env, set, a, k), classifyRegexFinding(env, set, a, b, k))
 	}
 }
+
+func TestProbeRuleFiles(t *testing.T) {
+	if os.Getenv("VERIF_PROBE_RULES") == "" {
+		t.Skip()
+	}
+	dir := t.TempDir()
+	for _, k := range []string{"syntax", "dsl", "import", "empty", "valid"} {
+		rf := ruleFile{Name: k + ".go", Kind: k, Groups: []ruleGroup{{Name: "g1", Tags: []string{"t1"}}}}
+		p := dir + "/" + rf.Name
+		os.WriteFile(p, []byte(renderRuleFile(rf)), 0o644)
+		e := ruleguardProbeLoad(p)
+		fmt.Printf("%-8s -> %T %v\n", k, e, e)
+	}
+}
